@@ -81,6 +81,23 @@ OPTIONS_AFFECTING_CACHE: Final = (
         "untyped_calls_exclude",
         "enable_incomplete_feature",
         "install_types",
+        # Options read while errors are produced or rendered, i.e. before the
+        # error tuples are written to the cache (they are replayed verbatim for
+        # fresh modules, so a change must invalidate the cached errors).
+        "allow_empty_bodies",
+        "custom_typing_module",
+        "deprecated_calls_exclude",
+        "hide_error_codes",
+        "many_errors_threshold",
+        "pos_only_special_methods",
+        "report_deprecated_as_note",
+        "reveal_verbose_types",
+        "semantic_analysis_only",
+        "show_absolute_path",
+        "show_error_code_links",
+        "show_error_context",
+        "warn_incomplete_stub",
+        "warn_redundant_casts",
     }
 ) - {"debug_cache"}
 
